@@ -439,3 +439,143 @@ StandIn("C06/interrupted-save", "C06",
         "complete earlier checkpoint, then restore: error, or exactly the old or the new state; SQLite back-end: an "
         "exception at each of 5 statements (user_version, DDL script, adapter, INSERT, commit), then the previous "
         "checkpoint must load", "same (the effect list is finite and enumerated completely)", _c06_cases, _c06_check)
+
+
+# ================================================================================================ C01 / C05
+
+ALL9 = ["halton", "random", "rseq", "best", "pso", "rf", "xgb", "gp", "cors"]
+
+
+def _mixed_lineup(rnd, i, n_extra=None):
+    """First sampler history-free with >= 3 rows, then a line-up that contains sampler kind i and random others."""
+    k = ALL9[i % len(ALL9)]
+    extra = [rnd.choice(ALL9 if rnd.random() < 0.3 else CHEAP) for _ in range(rnd.randint(0, 2) if n_extra is None else n_extra)]
+    out = [("halton", 3)]
+    have = 3
+    for kk in [k] + extra:
+        b = rnd.randint(1, 3)
+        if kk == "best":
+            b = min(b, have)
+        out.append((kk, b))
+        have += b
+    return out
+
+
+def _run(case, seed, *, ctor_seed=None, n_jobs=1, verbose=False, folder=None, segments=None, restore=(), rl=False):
+    """Run one calibration life; segments = list of batch counts; restore = indices of boundaries crossed by
+    checkpoint/restore instead of a plain second calibrate() call."""
+    from black_it.calibrator import Calibrator
+    samplers = [e2e.make_sampler(k, b, seed=ctor_seed) for k, b in case["lineup"]]
+    scheduler = None
+    if rl:
+        from black_it.schedulers.rl.agents.epsilon_greedy import MABEpsilonGreedy
+        from black_it.schedulers.rl.envs.mab import MABCalibrationEnv
+        from black_it.schedulers.rl.rl_scheduler import RLScheduler
+        scheduler = RLScheduler(samplers, MABEpsilonGreedy(len(samplers), 0.2, 0.3, random_state=ctor_seed),
+                                MABCalibrationEnv(len(samplers)), random_state=ctor_seed)
+    cfg = {"E": case["E"], "dims": case.get("dims", 2), "seed": seed, "n_jobs": n_jobs, "verbose": verbose,
+           "folder": folder, "N": 8}
+    loss = None
+    if case.get("loss") == "msm":
+        from black_it.loss_functions.msm import MethodOfMomentsLoss
+        loss = MethodOfMomentsLoss()
+    elif case.get("loss") == "fourier":
+        from black_it.loss_functions.fourier import FourierLoss
+        loss = FourierLoss()
+    cal, *_ = e2e.make_calibrator(cfg, model=e2e.pure_model, loss=loss,
+                                  samplers=None if rl else samplers, scheduler=scheduler)
+    ret = None
+    segments = segments or [case["nb"]]
+    with warnings.catch_warnings():
+        warnings.simplefilter("ignore")
+        for i, nb in enumerate(segments):
+            if i > 0 and (i - 1) in restore:
+                with e2e.quiet():
+                    cal = Calibrator.restore_from_checkpoint(folder, model=e2e.pure_model)
+            with e2e.quiet():
+                ret = cal.calibrate(nb)
+    return e2e.history(cal), ret
+
+
+def _c01_cases(tier, seed):
+    rnd = random.Random(seed + 1)
+    n = 9 if tier == "quick" else 54
+    for i in range(n):
+        yield {"lineup": _mixed_lineup(rnd, i), "E": rnd.choice([1, 2]), "nb": rnd.randint(3, 5), "seed": rnd.randrange(10 ** 6),
+               "dims": rnd.choice([1, 2, 3]), "loss": rnd.choice([None, None, "msm", "fourier"]),
+               "variant": ["twin", "ctor_seed", "verbose", "folder", "n_jobs", "rl"][i % 6]}
+
+
+def _c01_check(reg, case):
+    v = case["variant"]
+    with e2e.tmp_folder() as d:
+        rl = v == "rl"
+        if rl and any(k in ("pso", "cors", "gp") for k, _ in case["lineup"]):
+            case = dict(case, lineup=[("halton", 3), ("random", 2), ("best", 2)])
+        base, bret = _run(case, case["seed"], ctor_seed=1, rl=rl)
+        kw = {"ctor_seed": 1, "rl": rl}
+        if v == "ctor_seed":
+            kw["ctor_seed"] = 2
+        elif v == "verbose":
+            kw["verbose"] = True
+        elif v == "folder":
+            kw["folder"] = d
+        elif v == "n_jobs":
+            kw["n_jobs"] = 2
+        other, oret = _run(case, case["seed"], **kw)
+        m = e2e.same_history(base, other)
+        if m:
+            return f"two runs with the same configuration and seed differ ({v}): {m}; line-up {case['lineup']}"
+        if not (np.array_equal(bret[0], oret[0]) and np.array_equal(bret[1], oret[1], equal_nan=True)):
+            return f"return values differ ({v})"
+    return None
+
+
+StandIn("C01/determinism", "C01",
+        "9 seeded configurations (every built-in sampler once in a line-up of 2-4, 1-3 parameters, ensemble 1-2, three "
+        "losses, 3-5 batches), each run twice with one thing varied: nothing / sampler constructor seeds / verbose / saving "
+        "folder / n_jobs 1 vs 2 / RL scheduler (single session); histories and return values compared bit-wise",
+        "54 configurations", _c01_cases, _c01_check)
+
+
+def _compositions(n):
+    if n == 0:
+        yield []
+        return
+    for first in range(1, n + 1):
+        for rest in _compositions(n - first):
+            yield [first] + rest
+
+
+def _c05_cases(tier, seed):
+    rnd = random.Random(seed + 5)
+    kinds = ALL9 if tier != "quick" else ["halton", "best", "pso", "cors", "xgb", "rseq"]
+    for i, _k in enumerate(kinds):
+        lineup = _mixed_lineup(rnd, ALL9.index(_k), n_extra=1)
+        n = 4
+        comps = [c for c in _compositions(n) if len(c) > 1]
+        chosen = comps if tier != "quick" else rnd.sample(comps, 3)
+        for comp in chosen:
+            nb = len(comp) - 1
+            masks = [tuple(j for j in range(nb) if (m >> j) & 1) for m in range(1 << nb)]
+            for mask in (masks if tier != "quick" else rnd.sample(masks, min(2, len(masks)))):
+                yield {"lineup": lineup, "E": 1, "nb": n, "seed": rnd.randrange(10 ** 6), "segments": comp,
+                       "restore": list(mask), "dims": 2}
+
+
+def _c05_check(reg, case):
+    with e2e.tmp_folder() as d, e2e.tmp_folder() as d2:
+        full, _ = _run(case, case["seed"], folder=d2, segments=[case["nb"]])
+        cut, _ = _run(case, case["seed"], folder=d, segments=case["segments"], restore=tuple(case["restore"]))
+        m = e2e.same_history(full, cut)
+        if m:
+            return (f"{case['nb']} batches cut as {case['segments']} (restore at boundaries {case['restore']}) differ from "
+                    f"the uninterrupted run: {m}; line-up {case['lineup']}")
+    return None
+
+
+StandIn("C05/resume", "C05",
+        "6 line-ups (Halton + one of halton/best/pso/cors/xgb/rseq + one more), 4 batches cut into 3 seeded compositions "
+        "with 2 seeded choices of which boundaries are checkpoint/restore instead of a second calibrate() call; history "
+        "compared bit-wise with the uninterrupted run", "9 line-ups x all 7 compositions of 4 x all boundary choices",
+        _c05_cases, _c05_check)
